@@ -132,6 +132,13 @@ func roundRef(x float64, prec int, even bool) (cands []float64, exact bool) {
 	return cands, exactPow
 }
 
+// sameParts reports whether the real parts and the imaginary parts are each
+// equal or both NaN.
+func sameParts(a, b complex128) bool {
+	eq := func(x, y float64) bool { return x == y || (math.IsNaN(x) && math.IsNaN(y)) }
+	return eq(real(a), real(b)) && eq(imag(a), imag(b))
+}
+
 func abs(i int) int {
 	if i < 0 {
 		return -i
@@ -299,7 +306,17 @@ func checkScalar(c scase) *vk.Failure {
 			return vk.Failf(key+"/value", "Same(%v, %v) = %v", a, b, g)
 		}
 	case "cscalar.Same":
-		if g, w := cscalar.Same(za, zb), za == zb || (cmplx.IsNaN(za) && cmplx.IsNaN(zb)); g != w {
+		w := za == zb || (cmplx.IsNaN(za) && cmplx.IsNaN(zb))
+		g := cscalar.Same(za, zb)
+		if !w && sameParts(za, zb) {
+			// "the same value, allowing NaN equality": equal parts, NaN matching NaN
+			// (cmplx.IsNaN is false for a value with an infinite and a NaN part).
+			if !g {
+				return vk.Failf(key+"/inf-nan-parts", "Same(%v, %v) = false although both parts are the same", za, zb)
+			}
+			return nil
+		}
+		if g != w {
 			return vk.Failf(key+"/value", "Same(%v, %v) = %v", za, zb, g)
 		}
 	default:
@@ -495,6 +512,16 @@ func scalarGrid() []scase {
 						c.AI, c.BI = vk.F(vals[(i+k)%len(vals)]), vk.F(vals[(j+2*k)%len(vals)])
 					}
 					out = append(out, c)
+				}
+			}
+		}
+	}
+	sp := []float64{1, math.Inf(1), math.Inf(-1), math.NaN()}
+	for _, ar := range sp {
+		for _, ai := range sp {
+			for _, br := range sp {
+				for _, bi := range sp {
+					out = append(out, scase{Fn: "cscalar.Same", A: vk.F(ar), AI: vk.F(ai), B: vk.F(br), BI: vk.F(bi)})
 				}
 			}
 		}
